@@ -154,6 +154,25 @@ func contains(l []string, s string) bool {
 // Poll lets pending pushes be processed (the real client's reader goroutine does this on its own).
 func (c *VerifSimClient) Poll() { c.pump() }
 
+// StartReader (opt-in, sim flavour only) starts a daemon thread that plays the role of the real client's
+// connection reader: pushes the server sends while no command of this client is in flight (invalidations
+// caused by other clients or by key expiry, pub/sub messages) are dispatched on their own, at a scheduling
+// point of their own, instead of only together with the next reply. The thread ends on Close/Lose.
+func (c *VerifSimClient) StartReader(name string) {
+	if vsched.X == nil {
+		return
+	}
+	vsched.GoDaemon(name, func() {
+		for {
+			vsched.Point("simclient.reader", func() bool { return c.buf.Len() > 0 || c.closed || c.Lost })
+			if c.closed || c.Lost {
+				return
+			}
+			c.pump()
+		}
+	})
+}
+
 func (c *VerifSimClient) raw(argv []string) RedisResult {
 	if c.closed {
 		return NewErrorResult(ErrClosing)
@@ -165,6 +184,12 @@ func (c *VerifSimClient) raw(argv []string) RedisResult {
 		if err := c.Fail(argv); err != nil {
 			return NewErrorResult(err)
 		}
+	}
+	// a real connection serialises the arguments onto the wire before Do returns: deep-copy the bytes, because callers
+	// may pass rueidis.BinaryString views of pooled buffers that are cleared/reused right after the call (rueidisprob)
+	argv = append([]string{}, argv...)
+	for i := range argv {
+		argv[i] = string(append([]byte(nil), argv[i]...))
 	}
 	c.Calls = append(c.Calls, append([]string{}, argv...))
 	c.Srv.Feed(c.Sess, argv)
